@@ -23,6 +23,8 @@ func genFamily(c *Config, r *rand.Rand) {
 		genReconf(c, r)
 	case "api", "persist":
 		genApi(c, r)
+	case "import":
+		genImport(c, r)
 	default:
 		genPipe(c, r)
 	}
